@@ -19,7 +19,9 @@ ObsPost == /\ Ev.e = "post"
            /\ last' = [a |-> "post", kind |-> Ev.kind, status |-> Ev.status]
            /\ UNCHANGED <<ctr, bucket>> /\ i' = i + 1
 ObsSkip == Ev.e = "skip" /\ UNCHANGED <<stored, last, ctr, bucket>> /\ i' = i + 1
-TraceNext == i <= Len(Trace) /\ (Reset \/ ObsPost \/ ObsSkip)
+\* the service was started on a database that already holds checkpoints (written by the harness in the pinned release's format): what is in the file
+ObsPreset == Ev.e = "preset" /\ stored' = [l \in Logs |-> Ev.stored[l]] /\ last' = [a |-> "preset"] /\ UNCHANGED <<ctr, bucket>> /\ i' = i + 1
+TraceNext == i <= Len(Trace) /\ (Reset \/ ObsPost \/ ObsSkip \/ ObsPreset)
 TraceSpec == TraceInit /\ [][TraceNext]_tvars
 
 Say(id, name, sig) == PrintT("FAIL " \o ToJson([id |-> id, name |-> name, i |-> i, run |-> Ev.run, k |-> Ev.k, sig |-> sig]))
